@@ -1539,9 +1539,27 @@ pub fn sweep_changeset(max_len: usize, idxs: &[u32], universe: &[u32]) -> (Stats
             }
             CAT_LIVE.with(|c| *c.borrow_mut() = (0, 0, vec![]));
             let pairs = |from: usize, to: usize| -> Vec<(Entity, Cat)> { seq[from..to].iter().map(|(e, a)| (hs[*e], Cat::new(a))).collect() };
+            // the set is keyed by index: every second mention of an index may come through an older
+            // (dead) handle of the same index without changing anything
+            let pairs_stale = |from: usize, to: usize| -> Vec<(Entity, Cat)> {
+                seq[from..to]
+                    .iter()
+                    .enumerate()
+                    .map(|(j, (e, a))| {
+                        let h = if j % 2 == 1 { ctx.stale.iter().map(|(s, _)| *s).find(|s| s.id() == idxs[*e]).unwrap_or(hs[*e]) } else { hs[*e] };
+                        (h, Cat::new(a))
+                    })
+                    .collect()
+            };
             // construction modes: collect, add one by one, extend at every split point
             let mut builds: Vec<(String, ChangeSet<Cat>)> = vec![];
             builds.push(("collect".into(), pairs(0, len).into_iter().collect()));
+            if len >= 2 {
+                builds.push(("collect (odd positions through a dead handle of the same index)".into(), pairs_stale(0, len).into_iter().collect()));
+                let mut cs = ChangeSet::new();
+                cs.extend(pairs_stale(0, len));
+                builds.push(("extend (odd positions through a dead handle of the same index)".into(), cs));
+            }
             {
                 let mut cs = ChangeSet::new();
                 for (e, a) in pairs(0, len) {
